@@ -310,11 +310,45 @@ def normalise(v):
     return ["obj", tn]
 
 
+class Hang(Exception):
+    """a concrete run did not terminate within its time limit"""
+
+
+class time_limit(object):
+    """SIGALRM based limit for one concrete run / one whole worker (main thread only)"""
+
+    def __init__(self, seconds, exc):
+        self.seconds, self.exc = seconds, exc
+
+    def __enter__(self):
+        import signal
+
+        def handler(signum, frame):
+            raise self.exc("time limit of %ss exceeded" % self.seconds)
+
+        self.old = signal.signal(signal.SIGALRM, handler)
+        self.prev = signal.setitimer(signal.ITIMER_REAL, self.seconds)
+        return self
+
+    def __exit__(self, *a):
+        import signal
+
+        signal.setitimer(signal.ITIMER_REAL, 0)
+        signal.signal(signal.SIGALRM, self.old)
+        if self.prev and self.prev[0] > 0:
+            signal.setitimer(signal.ITIMER_REAL, max(0.01, self.prev[0] - self.seconds))
+        return False
+
+
+CONCRETE_LIMIT_S = 20
+
+
 def run_concrete(ob, stack, mk, shared=None):
     """-> dict(status='ok'|'fail'|'exc'|'ood', ok, exc, obs, inputs)"""
     ctx = Ctx(stack, mk, ob.params, shared=shared)
     try:
-        ok = ob.fn(ctx)
+        with time_limit(CONCRETE_LIMIT_S, Hang):
+            ok = ob.fn(ctx)
         from .core import SBool
 
         if isinstance(ok, SBool) or not isinstance(ok, (bool, int)):
@@ -473,19 +507,20 @@ def _worker(args):
         _cov_start()
         try:
             try:
-                st = explore(harness, on_path, timeout_ms=timeout_ms, max_paths=ob.max_paths,
-                             deadline=deadline, seed=seed)
+                st = {}
+                with time_limit(max(1.0, deadline - time.time() + 5.0), Inconclusive):
+                    explore(harness, on_path, timeout_ms=timeout_ms, max_paths=ob.max_paths,
+                            deadline=deadline, seed=seed, stats=st)
                 if st["truncated"]:
                     out["inconclusive"] = "path limit reached"
             except Inconclusive as inc:
-                st = None
                 out["inconclusive"] = str(inc)
         finally:
             _cov_stop()
-        if st is not None:
+        if st:
             for k in ("paths", "aborted", "queries", "nontrivial", "max_depth"):
-                out[k] = st[k]
-            out["solver_s"] = round(st["solver_s"], 3)
+                out[k] = st.get(k, 0)
+            out["solver_s"] = round(st.get("solver_s", 0.0), 3)
         out["witnesses"] = sorted(shared.get("witness", ()))
         out["funcs"] = _cov_report()
 
@@ -664,6 +699,18 @@ def finish(pid, tier, seed, hm, obs, results, wall, write=True):
         if old.endswith(".json"):
             os.remove(os.path.join(rdir, old))
     lines = []
+    seen_shapes = set()
+    kept = []
+    for (r, c, key) in new_violations:
+        shape = (r.get("group"), c.get("label"), (c.get("replay") or {}).get("label"), (c.get("replay") or {}).get("exc"))
+        if shape in seen_shapes or len(kept) >= 12:
+            continue
+        seen_shapes.add(shape)
+        kept.append((r, c, key))
+    suppressed = len(new_violations) - len(kept)
+    new_violations = kept
+    if suppressed:
+        print("(%d further counterexamples of the same shapes not written out)" % suppressed)
     for n, (r, c, key) in enumerate(new_violations):
         path = os.path.join("replays", pid, "%d.json" % n)
         with open(os.path.join(VERIF, path), "w") as fh:
